@@ -41,3 +41,18 @@ Theorem C09_urgent_first :
     qlt {| q_time := t; q_prio := URGENT; q_seq := s1; q_ev := e1 |} {| q_time := t; q_prio := NORMAL; q_seq := s2; q_ev := e2 |} = true.
 Proof. intros. unfold qlt. simpl. rewrite Z.ltb_irrefl, Z.eqb_refl. reflexivity. Qed.
 Print Assumptions C09_urgent_first.
+
+From FV Require FactoryProbe StoreBWeak.
+(* non-blocking never waits, at the factory level: in every reachable world of every configuration whose
+   Buffer / Fleet edges start empty (WN), a yes of the probe means the space reservation then issued
+   (the Sync + RPut pair of e_reserve_put) is granted by the store in that very call, a no means nothing
+   is granted (theories/Factory/FactoryProbe.v) *)
+Theorem C09_probe_decides_grant_in_every_factory :
+  forall nodes edges order n, Forall (fun ed => StoreBWeak.WN (World.est ed)) edges ->
+  let w := FactoryInv.iter_fstep n (Factory.mk_world nodes edges order) in
+  forall e ev p, (e < length (World.wedges w))%nat ->
+    (World.e_can_put w e = true ->
+       snd (StoreB.step (FactoryProbe.synced w e ev) (StoreB.RPut p 0)) = [StoreB.next (FactoryProbe.synced w e ev)]) /\
+    (World.e_can_put w e = false -> snd (StoreB.step (FactoryProbe.synced w e ev) (StoreB.RPut p 0)) = []).
+Proof. exact FactoryProbe.probe_decides_grant_everywhere. Qed.
+Print Assumptions C09_probe_decides_grant_in_every_factory.
